@@ -251,6 +251,14 @@ func checkMain(args []string) {
 			}
 			continue
 		}
+		if !base[c] && rs[0].O.Kind == "static" {
+			// decidable static obligations (e.g. a new package-level variable written outside init) never go unnoticed
+			rp := filepath.Join(verifRoot, "replays", *prop+"_"+mangle(c)+".json")
+			writeReplay(rp, *prop, c, rs[0], false, "static obligation: "+rs[0].O.Text)
+			claimed++
+			violate(rp, true)
+			continue
+		}
 		if !base[c] {
 			for _, r := range rs {
 				undecided = append(undecided, r.O.Name+" ("+r.R.Status+")")
